@@ -8,7 +8,7 @@ REG = dict(
     technique="stateless deviation-bounded exhaustive exploration of thread schedules and timer firings of the real nREPL connection/worker/flusher threads under a controlled scheduler, with replay",
     text="The real nrepl.rs code (Connection, handle_message, session_worker, spawn_output_flusher, eval_code_in_namespace and the interpreter loop) runs under a controlled "
          "scheduler whose scheduling points are every channel send/recv/recv_timeout, thread spawn/join, the per-step interrupt check of the interpreter and the output buffer "
-         "locks; the flusher's 100 ms timer is a data choice. For six client scenarios (one/two sessions, printing evals, failing eval, queued completions/lookup, close, "
+         "locks; the flusher's 100 ms timer is a data choice. For seven client scenarios (one/two sessions, printing evals, failing eval, queued completions/lookup, close, clone after close, "
          "malformed requests) EVERY schedule with at most 2 (quick) / 3 (thorough) deviations (preemptions or timer firings) is executed, one process each, and checked: exactly one "
          "`done` per request id and nothing after it, stdout/stderr chunks complete, in order and before `done`, sessions do not see each other's definitions, no deadlock. "
          "Exhaustive within the deviation bound, the bound completed is reported.",
@@ -34,13 +34,18 @@ SCENARIOS = {
                      expect={"e1": {"out": "a", "err_prefix": "", "ok": False}}),
     "S3-two-sessions": dict(script=clone(1) + clone(2) + [ev("d1", "garden-1", "fun f() { 41 }"), ev("u1", "garden-1", "f()"), ev("u2", "garden-2", "f()"),
                                                          {"send": {"op": "ls-sessions", "id": "ls"}}],
-                            expect={"d1": {"out": "", "ok": True}, "u1": {"out": "", "ok": True, "value": "41"}, "u2": {"out": "", "ok": False}, "ls": {"plain": True}}),
+                            expect={"d1": {"out": "", "ok": True}, "u1": {"out": "", "ok": True, "value": "41"}, "u2": {"out": "", "ok": False, "isolation": True}, "ls": {"plain": True}}),
     "S4-queued": dict(script=clone(1) + [ev("e1", "garden-1", 'print("a") 1'), {"send": {"op": "completions", "id": "k1", "session": "garden-1", "prefix": "prin"}},
                                          {"send": {"op": "lookup", "id": "l1", "session": "garden-1", "sym": "print"}}],
                       expect={"e1": {"out": "a", "ok": True, "value": "1"}, "k1": {"plain": True}, "l1": {"plain": True}}),
     "S5-close": dict(script=clone(1) + [ev("e1", "garden-1", 'print("a") 1'), {"send": {"op": "close", "id": "x1", "session": "garden-1"}},
                                         ev("e2", "garden-1", "2")],
                      expect={"e1": {"out": "a", "maybe_interrupted": True}, "x1": {"plain": True}, "e2": {"plain": True}}),
+    # a session is cloned after another one was closed: the new session must not be (or share state with) a live one
+    "S7-clone-after-close": dict(script=clone(1) + clone(2) + [ev("d2", "garden-2", "fun f() { 42 }"), {"send": {"op": "close", "id": "x1", "session": "garden-1"}},
+                                                              {"await": {"counter": "sent.ch0", "n": 4}}, {"send": {"op": "clone", "id": "c3"}}, {"await": {"counter": "sent.ch0", "n": 5}},
+                                                              ev("u3", "garden-3", "f()"), ev("u2", "garden-2", "f()")],
+                                 expect={"d2": {"out": "", "ok": True}, "x1": {"plain": True}, "u3": {"out": "", "ok": False, "isolation": True}, "u2": {"out": "", "ok": True, "value": "42"}}, fresh_clone="c3"),
     "S6-malformed": dict(script=clone(1) + [ev("e0", "nosuch", "1"), {"send": {"op": "frobnicate", "id": "u1"}}, {"send": {"id": "m1"}},
                                             {"send": {"op": "interrupt", "id": "i0", "session": "nosuch"}}, ev("e1", "garden-1", 'print("z") 7')],
                          expect={"e0": {"plain": True}, "u1": {"plain": True}, "m1": {"plain": True}, "i0": {"plain": True}, "e1": {"out": "z", "ok": True, "value": "7"}}),
@@ -98,7 +103,7 @@ def check_exec(ctx, name, scn, res, prefix, cost):
         if "ok" in exp:
             failed = "eval-error" in st
             if failed == exp["ok"]:
-                viol("eval outcome differs from the sequential outcome" if rid != "u2" else "a session sees another session's definition",
+                viol("a session sees another session's definition" if exp.get("isolation") else "eval outcome differs from the sequential outcome",
                      {"request": rid, "status": st})
                 continue
             if exp["ok"]:
@@ -111,6 +116,13 @@ def check_exec(ctx, name, scn, res, prefix, cost):
             else:
                 if len(errs) < 1:
                     viol("failed eval has no error text message", {"request": rid})
+    if scn.get("fresh_clone"):
+        # the id handed out by the last clone must not be the id of a session that is still open
+        news = {rid: m.get("new-session") for rid, ms in ids.items() for k, m in ms if isinstance(m, dict) and "new-session" in m}
+        closed = {a["send"].get("session") for a in script if "send" in a and a["send"].get("op") == "close"}
+        live = {v for r, v in news.items() if r != scn["fresh_clone"] and v not in closed}
+        if news.get(scn["fresh_clone"]) in live:
+            viol("clone hands out the id of a session that is still open", {"new_sessions": news})
     extra = [i for i in ids if i not in expect and i is not None and not str(i).startswith("c")]
     if extra:
         viol("response with an id that no request carried", {"ids": extra})
